@@ -126,7 +126,8 @@ def explore(world0, name='', max_states=200000, max_seconds=600.0, max_depth=400
                             res.terminal_digests.add(dgb)
                             if len(res.terminals) < max_terminal_paths:
                                 res.terminals[dgb.hex()] = p2
-                            res.states += 1
+                            if dgb not in seen:
+                                res.states += 1       # distinct states = |expanded or final| (independent of the search order)
                         continue
                 except Violation as v:
                     res.violations.append({'clause': v.clause, 'detail': v.detail,
@@ -158,7 +159,7 @@ def explore(world0, name='', max_states=200000, max_seconds=600.0, max_depth=400
                 if old is not None and old >= b:
                     res.revisits += 1
                     continue
-                if old is None:
+                if old is None and dg not in res.terminal_digests:
                     res.states += 1
                 seen[dg] = b
                 stack.append((snapshot(w2), p2))
